@@ -40,7 +40,7 @@ PROPS = {
         "level_note": "Trusted: Lean kernel (no axioms beyond propext/Classical.choice/Quot.sound), the two ~250-line translators, the match/rebuild "
                       "semantics, Rust's type checking of module slots. Query kinds per R3; CosmosMsg::Custom from an Empty-typed contract excluded (R3).",
         "props_module": "CwMt.Props.C17",
-        "slices": [{"name": "route", "quick": 4000, "thorough": 60000, "predicate": "pred_c17", "nontrivial": "nt_route"},
+        "slices": [{"name": "route", "quick": 4000, "thorough": 250000, "predicate": "pred_c17", "nontrivial": "nt_route"},
                    # sub-messages emitted from every entry point (instantiate, migrate, sudo, reply …) by native and
                    # ContractWrapper-lifted contracts, with the sender observable in the invocation trace and bank dumps
                    {"name": "wasm", "quick": 4000, "thorough": 40000, "predicate": "pred_c05", "nontrivial": "nt_wasm"},
@@ -63,7 +63,7 @@ PROPS = {
         "level_note": "Trusted: Lean kernel, translators, rebuild semantics. What `param` wrapping expressions (Some(Box::new(f)), customize_*_fn(f)) "
                       "do at run time is covered by correspondence (entry point answers with the supplied function's tag), not by the theorem.",
         "props_module": "CwMt.Props.C20",
-        "slices": [{"name": "route", "quick": 4000, "thorough": 60000, "predicate": "pred_c20", "nontrivial": "nt_route"}],
+        "slices": [{"name": "route", "quick": 4000, "thorough": 250000, "predicate": "pred_c20", "nontrivial": "nt_route"}],
         "rule": _RULE,
         "trusted_base": ROUTE_TB,
         "assumptions": [],
